@@ -110,13 +110,15 @@ def fault(rng, p, kind):
         return build(q)
     if kind == "header_no_colon":
         q["headers"].insert(rng.randrange(len(q["headers"]) + 1), (None, None))
+        # (with the request's own line ends: CR LF, bare LF or a mix)
+        eol = lambda: rng.choice([b"\r\n", q["eols"][0], q["eols"][0]])
         out = q["verb"] + b" " + q["target"] + b" HTTP/" + q["version"] + q["eols"][0]
         for k, v in q["headers"]:
             if k is None:
-                out += rng.choice([b"Host example.com", b"x", b"no-colon-here", b"\x80\x81"]) + b"\r\n"
+                out += rng.choice([b"Host example.com", b"x", b"no-colon-here", b"\x80\x81", b"Host example.org"]) + eol()
             else:
-                out += k + b":" + v + b"\r\n"
-        return out + b"\r\n"
+                out += k + b":" + v + eol()
+        return out + eol()
     if kind == "folded_header":
         # obsolete line folding: a header value continued on a line that starts with SP / HTAB (and holds no colon) is a
         # header line without a colon for this grammar
